@@ -20,7 +20,7 @@ EXPLANATION = (
     'doc_close evaluated: one forwarded open / close of the requested document, failure reported. (R6) the drop handler '
     'evaluated on {not open, 1, 2, 5 handles} against a store that refuses while the document is open: a refused drop '
     'leaves the handle count untouched. (R7) reply streams accepted before the actor stops are driven to their end before '
-    'anything is aborted (reports F25, known finding). (R8) every per-document request of the store actor and every SyncHandle method (the store-actor handler evaluated with the fields of the request as named tokens and gates / store / replica calls answered by an oracle, each step also failing in turn: the own fields of the request reach the core function in order on the addressed document, nothing is carried out after a failed step, the reply is the result of that function; the SyncHandle method evaluated: one request of its own kind, addressed to its namespace argument, each field one of its own parameters, the reply of the actor returned). NOT decided: behaviour with several concurrent clients beyond the '
+    'anything is aborted (reports F25, known finding). (R8) every per-document request of the store actor and every SyncHandle method (the store-actor handler evaluated with the fields of the request as named tokens and gates / store / replica calls answered by an oracle, each step also failing in turn: the own fields of the request reach the core function in order on the addressed document, nothing is carried out after a failed step, the reply is the result of that function; the SyncHandle method evaluated: one request of its own kind, addressed to its namespace argument, each field one of its own parameters, the reply of the actor returned). (R9) LiveActor::start_sync / leave evaluated against a model of the set of joined documents: one open (sync on, subscribed) iff not joined yet, marked as joined only after that open succeeded, exactly one close on leaving a joined document, none otherwise. NOT decided: behaviour with several concurrent clients beyond the '
     'single-consumer loop.'
 )
 ASSUMPTIONS = ["the action loop is the only consumer of the action channel", "tracing macro expansions are effect-free"]
@@ -499,6 +499,14 @@ def r8(ctx):
                   "drop_replica", "export_secret_key"), floor=60)
 
 
+def r9(ctx):
+    """the engine as a client of the handle counting: joining and leaving a document open and close exactly one handle, and the
+    engine believes a document joined only if its open succeeded"""
+    from . import livefw
+    livefw.check_join_leave(ctx, "C14.R9")
+    ctx.floor("C14.R9", 5)
+
+
 def run(ctx):
     ctx.run_rule("C14.R1", r1)
     ctx.run_rule("C14.R2", r2)
@@ -508,3 +516,4 @@ def run(ctx):
     ctx.run_rule("C14.R6", r6)
     ctx.run_rule("C14.R7", r7)
     ctx.run_rule("C14.R8", r8)
+    ctx.run_rule("C14.R9", r9)
